@@ -307,6 +307,7 @@ def run(check):
     check.guarded("TRAV-COVER", lambda c: T.run_cover(c, "TRAV-COVER", OPV, {T.EXPR}, [T.excl_delete, T.excl_tpl_literal, T.excl_arrow], {"visit_mut_expr", "visit_mut_block_stmt"}, block_override_ok=block_ok))
     check.guarded("TRAV-COVER", lambda c: T.run_cover(c, "TRAV-COVER", BTV, {T.BLOCK}, [T.excl_cancelled], {"visit_mut_block_stmt"}))
     check.guarded("TRAV-COVER", lambda c: T.run_cover(c, "TRAV-COVER", "OptChainVisitor", {T.EXPR}, [excl_optchain_lowered], {"visit_mut_expr"}))
+    check.guarded("DEFAULT-VISITOR", lambda c: T.rule_default_visitor(c, "VisitMut", {T.EXPR, T.BLOCK}))
     check.guarded("TRAV-DISPATCH", rule_dispatch)
     check.guarded("BLOCK-DRIVER", rule_block_driver)
     check.guarded("ARROW-BLOCK", rule_arrow_block)
